@@ -81,7 +81,7 @@ def can_open(cache):
 
 
 def run(prop, tier, seed, replay):
-    ck = Check(prop, tier, seed, kernels=["k_creation", "k_createplan"], theorems=THEOREMS + ["Yaw.C18P.steps_spec", "Yaw.C18P.passes_spec", "Yaw.C18P.reader_forwarding", "Yaw.C18P.mode_args", "Yaw.C18P.writer_forwarding", "Yaw.C18P.glue_pinned"], lean_modules=["YawVerif.Props.C09", "YawVerif.Props.C18Plan"], rule=RULE,
+    ck = Check(prop, tier, seed, kernels=["k_creation", "k_createplan", "k_validation"], theorems=THEOREMS + ["Yaw.C09.id_range_spec", "Yaw.C09.id_bound_is_dtype_max", "Yaw.C09.check_after_cast_accepts_garbage", "Yaw.C09.validation_flags", "Yaw.C18P.steps_spec", "Yaw.C18P.passes_spec", "Yaw.C18P.reader_forwarding", "Yaw.C18P.mode_args", "Yaw.C18P.writer_forwarding", "Yaw.C18P.glue_pinned"], lean_modules=["YawVerif.Props.C09", "YawVerif.Props.C18Plan"], rule=RULE,
                level="proof",
                assumptions=["a creation that does not finish within 60 s for <= 300 records is a hang",
                             "process termination (SIGTERM) of the writer is immediate; the OS delivers pipe / queue data"])
